@@ -1,5 +1,5 @@
 (* Props/C02.v — Well-formed FTL parses to exactly the tree the grammar assigns.
-   Only statements here; proofs are in Syntax/ParseLemmas.v, RoundTrip.v, EntryLoop.v, RoundTripML.v and RoundTripSel.v.
+   Only statements here; proofs are in Syntax/ParseLemmas.v, RoundTrip.v, EntryLoop.v, RoundTripML.v, CallArgs.v and RoundTripSel.v.
    The grammar is Syntax/Render.v: `render cs t` prints the tree t with the layout choices cs, and
    `wf_resource t` says that t is well-formed (together with WfUtf8.wf_utf8_resource: its strings are UTF-8).
 
@@ -17,18 +17,27 @@
                                                not depend on the layout (the parser returns one text element
                                                per line, and how a line break is split may depend on LF/CRLF)
      C02_select_depth_monotone                 sel_resource d is contained in sel_resource (d+1)
-   the same at depth 0 (placeables hold a simple inline expression; names kept from the previous step):
+   the same at depth 0 (placeables hold an inline expression that is not a placeable; names kept from the
+   previous step):
      C02_roundtrip_multiline_partial, C02_multiline_is_wellformed, C02_layout_independent_multiline_partial
    and for the sub-fragment simple_resource of depth 0 (RoundTrip.v: one-line patterns; C02_simple_in_multiline),
    where the parser returns the tree itself:
      C02_roundtrip_simple_partial, C02_simple_is_wellformed, C02_layout_independent_simple_partial
    PLACEABLES of depth d (RoundTripSel.eokd d):
-     depth 0: a variable reference, a message reference with or without attribute, a term reference without
-       attribute and arguments, a number literal or a string literal (any escapes);
+     depth 0 (CallArgs.binline): a variable reference, a message reference with or without attribute, a term
+       reference without attribute, with or without CALL ARGUMENTS, a FUNCTION REFERENCE (callee: an upper-case
+       letter, then upper-case letters, digits, '_' '-') with call arguments, a number literal or a string
+       literal (any escapes).
+       Call arguments (CallArgs.args_ok), possibly none at all "()": the positional arguments are variable
+       references, message references (with or without attribute), term references without attribute and
+       arguments, number or string literals; the named arguments have well-formed pairwise distinct names and a
+       number or string literal as value (what the grammar allows);
      depth d+1: one of these, or a placeable around an expression of depth d ("{ { $x } }"), or a SELECT
-       expression: the selector is a string literal, a number literal or a variable reference; exactly one
-       variant is the default; keys are well-formed identifiers or numbers; every variant value is a pattern
-       as described below whose placeables have depth d (so values may have several lines, and selects nest).
+       expression: the selector (CallArgs.bsel) is a string literal, a number literal, a variable reference, a
+       function reference with call arguments as above, or a TERM ATTRIBUTE "-term.attr" with or without such
+       call arguments; exactly one variant is the default; keys are well-formed identifiers or numbers; every
+       variant value is a pattern as described below whose placeables have depth d (so values may have several
+       lines, and selects nest).
    The fragment (sel_resource d = RoundTripML.ml_resource (eokd d)): every entry is
      * a stand-alone comment of any of the three levels (#, ##, ###), or
      * a message or a term, with or without an attached comment; its value and the value of each of its
@@ -51,7 +60,9 @@
    block start of each value (with an optional blank line), the indentation of the lines of a value after
    a line break (4-6 spaces, 8-10 in an attribute, the same for all lines of the value; the parser removes
    it), 0-1 spaces on a blank line inside a value, blanks (spaces and line
-   breaks) inside the braces of a placeable; for a select expression: 0-2 spaces or a line break before
+   breaks) inside the braces of a placeable; for call arguments: blanks (0-2 spaces or a line break with
+   indentation) between the callee and "(", after "(", before and after every ",", around the ":" of a named
+   argument and before ")", and an optional trailing "," after the last argument; for a select expression: 0-2 spaces or a line break before
    "->" (one space at least after a selector that ends in an identifier character), 0-2 spaces after it, the
    variants on lines of their own indented by the pattern's indentation plus 0-2, an optional blank line
    before a variant, blanks inside "[ ]", 0-2 spaces before the value, the value's further lines indented by
@@ -61,8 +72,10 @@
    next comment) plus 0-2 more between any two entries, 0-2 spaces on blank
    lines, LF or CRLF at every line end (also inside a value), final line end absent / present / followed by a
    blank line.  (The proof covers more: any indentation >= 1, any number of spaces and blank lines.)
-   EXCLUDED from the fragment: comments whose last line is empty or whitespace-only, function references and
-   call arguments (also as selectors), term attributes (as selectors), Junk.
+   EXCLUDED from the fragment: comments whose last line is empty or whitespace-only; call arguments that are
+   themselves calls (function references, term references with arguments or attribute) or placeables; term
+   references with attribute outside a selector (the grammar forbids them there) and message references /
+   term references without attribute as selectors (likewise); Junk.
    Examples (vm_compute) for trees outside the fragment: C02_example_xxx.                            *)
 From FluentV Require Import Base.Bytes Base.Outcome Base.Utf8 Syntax.Ast.
 From FluentV Require Import Syntax.ParserModel Syntax.Render Syntax.TreeNorm Syntax.WfUtf8 Syntax.RoundTrip Syntax.RoundTripML Syntax.RoundTripSel.
@@ -98,7 +111,8 @@ Qed.
 Theorem C02_select_depth_monotone : forall d t, sel_resource d t = true -> sel_resource (S d) t = true.
 Proof. exact sel_resource_mono. Qed.
 
-(* depth 0: multi-line patterns whose placeables hold a simple inline expression *)
+(* depth 0: multi-line patterns whose placeables hold an inline expression of CallArgs.binline (references,
+   literals, function / term references with call arguments) *)
 Theorem C02_roundtrip_multiline_partial :
   forall cs t, sel_resource 0 t = true ->
   exists t', parse (render cs t) = Done (t', []) /\ map join_entry t' = t.
@@ -224,7 +238,8 @@ Example C02_example_sel_layout_2 :
   roundtrips_under [2;1;2;3;1;0;2;1;3;2;2;1;4;3;0;3;1;2;2;4;1;3;3;0;2;1;1;2;3;4;0;1;2;3;2;1;0;3;3;2;1;2;2;3;1;4;0;2;3;1;1;2;4;3;2;0;1;3;2;2;1;4;3] ex_sel.
 Proof. rt. Qed.
 
-(* a select expression with a default variant, a term reference with call arguments, an attribute *)
+(* inside the fragment of depth 1: a select expression with a default variant, a function reference and a term
+   reference with call arguments, an attribute *)
 Definition ex_select : resource :=
   [Message (b "emails")
      (Some (Pattern [TextElement (b "You have ");
@@ -239,11 +254,48 @@ Definition ex_select : resource :=
                                         (Some (CallArguments [] [NamedArgument (b "case") (NumberLiteral (b "1.5"))]))))]) true])]))
      [Attribute (b "title") (Pattern [TextElement (b "Inbox")])]
      (Some (Comment [b "about mail"; []; b "second"]))].
+Example C02_example_select_in_fragment : sel_resource 1 ex_select = true.
+Proof. vm_compute. reflexivity. Qed.
 Example C02_example_select_1 : roundtrips_under [] ex_select.
 Proof. rt. Qed.
 Example C02_example_select_2 : roundtrips_under [2;1;2;3;1;0;2;1;3;2;2;1;4;3;0;3;1;2;2;4;1;3;3;0;2;1;1;2;3;4;0;1;2;3;2;1;0;3;3;2;1] ex_select.
 Proof. rt. Qed.
 Example C02_example_select_3 : roundtrips_under [1;3;3;2;2;2;3;4;4;3;2;1;1;1;2;2;3;3;4;4;0;0;1;2;3;3;3;2;2;1;4;4;2;2;3;1;3;2;3;3;3;1;2;4;3;2;1;3] ex_select.
+Proof. rt. Qed.
+
+(* inside the fragment of depth 1: call arguments of every kind (none, positional only, named only, both), a
+   function reference, a term attribute and a term attribute with arguments as selectors *)
+Definition ex_calls : resource :=
+  [Message (b "calls")
+     (Some (Pattern [PlaceableElement (Inline (FunctionReference (b "F") (CallArguments [] [])));
+                     TextElement (b " ");
+                     PlaceableElement (Inline (FunctionReference (b "DATE-TIME_2")
+                        (CallArguments [VariableReference (b "d"); NumberLiteral (b "-1.0"); MessageReference (b "m") (Some (b "a"));
+                                        TermReference (b "t") None None; StringLiteral (b "),")]
+                                       [NamedArgument (b "month") (StringLiteral (b "long")); NamedArgument (b "x-y") (NumberLiteral (b "2"))])));
+                     TextElement ([10%N] ++ b "and ");
+                     PlaceableElement (Inline (TermReference (b "brand") None (Some (CallArguments [StringLiteral (b "p")] []))))]))
+     [Attribute (b "a") (Pattern [PlaceableElement (Select (FunctionReference (b "PLATFORM") (CallArguments [] []))
+                                    [Variant (KeyIdentifier (b "mac")) (Pattern [TextElement (b "Cmd")]) false;
+                                     Variant (KeyIdentifier (b "other")) (Pattern [TextElement (b "Ctrl")]) true])]);
+      Attribute (b "g") (Pattern [PlaceableElement (Select (TermReference (b "brand") (Some (b "gender")) None)
+                                    [Variant (KeyIdentifier (b "f")) (Pattern [TextElement (b "she")]) false;
+                                     Variant (KeyIdentifier (b "other")) (Pattern [TextElement (b "it")]) true])]);
+      Attribute (b "h") (Pattern [PlaceableElement (Select (TermReference (b "brand") (Some (b "gender"))
+                                                              (Some (CallArguments [] [NamedArgument (b "case") (StringLiteral (b "x"))])))
+                                    [Variant (KeyNumber (b "1")) (Pattern [TextElement (b "one")]) true])])]
+     None].
+Example C02_example_calls_in_fragment : sel_resource 1 ex_calls = true.
+Proof. vm_compute. reflexivity. Qed.
+Example C02_example_calls_layout_1 : roundtrips_under [] ex_calls.
+Proof. rt. Qed.
+Example C02_example_calls_layout_2 :
+  roundtrips_under [2;1;2;3;1;0;2;1;3;2;2;1;4;3;0;3;1;2;2;4;1;3;3;0;2;1;1;2;3;4;0;1;2;3;2;1;0;3;3;2;1;2;2;3;1;4;0;2;3;1;1;2;4;3;2;0;1;3;2;2;1;4;3;
+                    1;1;2;0;3;4;2;1;1;3;0;2;4;1;3;2;1;1;0;2;3;4;1;2;0;3;1;4;2;2;1;3;0;1;2;4;3;1;0;2;1;3;4;2;0;1;3;2;1;4] ex_calls.
+Proof. rt. Qed.
+Example C02_example_calls_layout_3 :
+  roundtrips_under [3;4;1;3;2;4;1;3;3;4;1;4;3;3;1;4;3;1;4;3;3;1;4;1;3;4;3;1;3;4;1;3;4;4;3;1;1;3;4;3;1;4;3;3;1;4;1;3;4;3;1;3;4;1;3;4;4;3;1;1;3;4;
+                    3;4;1;3;1;4;3;3;1;4;3;1;4;3;3;1;4;1;3;4;3;1;3;4;1;3;4;4;3;1;1;3;4;3;1;4;3;3;1;4;1;3;4;3;1;3;4;1;3;4;4;3;1;1;3;4] ex_calls.
 Proof. rt. Qed.
 
 (* a multi-line pattern with an indented line, an inner blank line and a line that starts with a placeable *)
@@ -262,6 +314,21 @@ Proof. rt. Qed.
 Example C02_example_multiline_2 : roundtrips_under [0;3;2;3;1;3;2;3;0;3;1;2;2;3;1;1;3;2;2;3;3;1;2;3;0;3;1;3;2;3;3;3;1;2;3;3] ex_multiline.
 Proof. rt. Qed.
 Example C02_example_multiline_3 : roundtrips_under [2;1;3;2;2;3;1;1;3;0;2;3;3;2;1;2;3;1;1;1;3;2;2;2;3;1;0;1;3;3;2;2;1;3;2;2;1;1;3;3;2] ex_multiline.
+Proof. rt. Qed.
+
+(* OUTSIDE the fragment: call arguments that are calls or placeables themselves *)
+Definition ex_nested_args : resource :=
+  [Message (b "m")
+     (Some (Pattern [PlaceableElement (Inline (FunctionReference (b "F")
+                       (CallArguments [FunctionReference (b "G") (CallArguments [VariableReference (b "x")] []);
+                                       Placeable (Inline (TermReference (b "t") None (Some (CallArguments [] []))))]
+                                      [NamedArgument (b "k") (NumberLiteral (b "1"))])))]))
+     [] None].
+Example C02_example_nested_args_outside : forall d, sel_resource d ex_nested_args = false.
+Proof. intros [|d]; reflexivity. Qed.
+Example C02_example_nested_args_1 : roundtrips_under [] ex_nested_args.
+Proof. rt. Qed.
+Example C02_example_nested_args_2 : roundtrips_under [2;1;3;4;1;2;3;1;4;2;1;3;2;4;1;3;2;1;4;3;1;2;3;4;2;1;3;1;2;4;3;1;2] ex_nested_args.
 Proof. rt. Qed.
 
 (* the layouts really differ *)
